@@ -176,6 +176,8 @@ class Terms:
         self.raised = {}     # id(For) -> raised list-builder comprehension per accumulator name
         self._k = 0
         self._encl = None
+        self.bindings = {}
+        self._cur = None
         env, dirty = self._block(fn.body, {}, set())
         self.final = (env, dirty)
 
@@ -213,9 +215,19 @@ class Terms:
         return self.expand(expr, env=st[0], dirty=st[1])
 
     def origin(self, name, at):
-        """origin term of a local before `at` even when its contents were changed since"""
+        """what the local was last bound to before `at` - also when the term is no longer valid for
+        re-evaluation (contents changed, or a callee it mentions may have changed state since): the
+        *origin* of the value.  Only when the local has one binding textually before `at`."""
         env, _ = self.before.get(id(at), ({}, set()))
-        return env.get(name)
+        if name in env:
+            return env[name]
+        hist = [(ln, t) for ln, t in self.bindings.get(name, []) if ln <= getattr(at, "lineno", 0)]
+        if len(hist) == 1 and len(self.bindings.get(name, [])) == 1:
+            return hist[0][1]
+        return None
+
+    def single_exit(self):
+        return None
 
     def is_dirty(self, name, at):
         return name in self.before.get(id(at), ({}, set()))[1]
@@ -373,6 +385,8 @@ class Terms:
         self._kill(env, dirty, (), [name])
         if term is not None and _size(term) <= MAX_TERM:
             env[name] = term
+        # history of bindings: what a local was bound to, even after the recipe stopped being re-evaluable
+        self.bindings.setdefault(name, []).append((getattr(self._cur, "lineno", 0), term))
 
     def _assigned_in(self, stmts):
         names, paths = set(), set()
@@ -429,6 +443,7 @@ class Terms:
     def _block(self, stmts, env, dirty):
         for st in stmts:
             self.before[id(st)] = (dict(env), set(dirty))
+            self._cur = st
             r = self._stmt(st, env, dirty)
             self.after[id(st)] = (dict(r[0]), set(r[1])) if r[0] is not None else (None, None)
             if r[0] is None:
@@ -909,6 +924,8 @@ class PathEnv(Terms):
         self.before, self.after, self.loops, self.returns, self.raised = {}, {}, {}, [], {}
         self._k = 0
         self._encl = None
+        self.bindings = {}
+        self._cur = None
         env, dirty = (dict(base[0]), set(base[1])) if base else ({}, set())
         self.occ = []   # (stmt, env, dirty) in path order
         self.at_event = []   # (env, dirty) before every event of the path, by position
@@ -1093,3 +1110,33 @@ def index_maps(term):
                     return out
             return n
     return M().visit(copy.deepcopy(term))
+
+
+def value_term(fn, self_effects=None):
+    """one term for the value a function returns, also when it has several returns: the returns of a
+    tree-shaped body become assignments to one result local (else branches made explicit), whose final term is a
+    conditional expression over the guards.  None when the body is not tree-shaped or a guard is impure."""
+    from .inline import _tree_shaped, _assign_returns
+    T = Terms(fn, self_effects=self_effects)
+    rets = [t for _, t in T.returns]
+    if len(rets) == 1:
+        return rets[0]
+    body = [s_ for s_ in fn.body if not (isinstance(s_, ast.Expr) and isinstance(s_.value, ast.Constant))]
+    if not rets or not _tree_shaped(body):
+        return None
+
+    def make(expr):
+        return [ast.Assign(targets=[ast.Name(id="__ret", ctx=ast.Store())], value=expr if expr is not None else ast.Constant(value=None))]
+    new_body = _assign_returns(copy.deepcopy(body), make)
+    f2 = ast.FunctionDef(name=fn.name, args=fn.args, body=new_body + [ast.Return(value=ast.Name(id="__ret", ctx=ast.Load()))],
+                         decorator_list=[], returns=None, type_comment=None)
+    ast.copy_location(f2, fn)
+    for n in ast.walk(f2):
+        if isinstance(n, (ast.expr, ast.stmt)) and not hasattr(n, "lineno"):
+            ast.copy_location(n, fn)
+    ast.fix_missing_locations(f2)
+    T2 = Terms(f2, self_effects=self_effects)
+    r2 = [t for _, t in T2.returns]
+    if len(r2) == 1 and not (isinstance(r2[0], ast.Name) and r2[0].id == "__ret"):
+        return r2[0]
+    return None
